@@ -118,7 +118,21 @@ package intermediate
 // ---------------------------------------------------------------------------
 
 //@ pure recList(r entities.Record) []entities.InfoElementWithValue = r.(*baseRecord).orderedElementList
-//@ pure recNN(r entities.Record) bool = is(r, *dataRecord) && r.(*dataRecord) != nil && elemsWF(recList(r), len(recList(r)))
+//@ // wfElemA: well-typed element as the aggregation process sees it: the dynamic type supports the getter/setter of its data type.
+//@ // Weaker than entities.wfElem: the aggregation code itself stores dateTimeSeconds elements (flowEndSecondsFrom*Node) in
+//@ // Unsigned32InfoElement objects (NewUnsigned32InfoElement on a dateTimeSeconds information element), which wfElem excludes.
+//@ pure wfElemA(e entities.InfoElementWithValue) bool = !isnil(e) && ie(e) != nil
+//@     && (dt(e) == OctetArray ==> is(e, *OctetArrayInfoElement)) && (dt(e) == Unsigned8 ==> is(e, *Unsigned8InfoElement))
+//@     && (dt(e) == Unsigned16 ==> is(e, *Unsigned16InfoElement)) && (dt(e) == Unsigned32 ==> is(e, *Unsigned32InfoElement))
+//@     && (dt(e) == Unsigned64 ==> is(e, *Unsigned64InfoElement)) && (dt(e) == Signed8 ==> is(e, *Signed8InfoElement))
+//@     && (dt(e) == Signed16 ==> is(e, *Signed16InfoElement)) && (dt(e) == Signed32 ==> is(e, *Signed32InfoElement))
+//@     && (dt(e) == Signed64 ==> is(e, *Signed64InfoElement)) && (dt(e) == Float32 ==> is(e, *Float32InfoElement))
+//@     && (dt(e) == Float64 ==> is(e, *Float64InfoElement)) && (dt(e) == Boolean ==> is(e, *BooleanInfoElement))
+//@     && (dt(e) == MacAddress ==> is(e, *MacAddressInfoElement)) && (dt(e) == String ==> is(e, *StringInfoElement))
+//@     && (dt(e) == DateTimeSeconds ==> is(e, *DateTimeSecondsInfoElement) || is(e, *Unsigned32InfoElement))
+//@     && (dt(e) == DateTimeMilliseconds ==> is(e, *DateTimeMillisecondsInfoElement) || is(e, *Unsigned64InfoElement))
+//@     && ((dt(e) == Ipv4Address || dt(e) == Ipv6Address) ==> is(e, *IPAddressInfoElement))
+//@ pure recNN(r entities.Record) bool = is(r, *dataRecord) && r.(*dataRecord) != nil && (forall j in [0, len(recList(r))): wfElemA(recList(r)[j]))
 //@ pure hasName(r entities.Record, name string) bool = exists j in [0, len(recList(r))): ie(recList(r)[j]).Name == name
 //@ // u8Of / strOf: value of the first element called name (when there is one, of that kind)
 //@ pure isFirst(r entities.Record, name string, j int) bool = firstNamed(recList(r), name, j)
@@ -181,13 +195,16 @@ package intermediate
 //@ // elements of one record are distinct objects; two records share no element object
 //@ pure distinctElems(r entities.Record) bool = forall i in [0, len(recList(r))): forall j in [0, len(recList(r))): i != j ==> recList(r)[i].(*baseInfoElement) != recList(r)[j].(*baseInfoElement)
 //@ pure disjointElems(r1 entities.Record, r2 entities.Record) bool = forall i in [0, len(recList(r1))): forall j in [0, len(recList(r2))): recList(r1)[i].(*baseInfoElement) != recList(r2)[j].(*baseInfoElement)
-//@ // both records are built from registry elements: the same name means the same information element (hence the same data type)
-//@ pure sameRegistry(r1 entities.Record, r2 entities.Record) bool = forall i in [0, len(recList(r1))): forall j in [0, len(recList(r2))): ie(recList(r1)[i]).Name == ie(recList(r2)[j]).Name ==> ie(recList(r1)[i]) == ie(recList(r2)[j])
+//@ // the correlate fields have the same data type on both sides (both records are built from registry elements)
+//@ pure sameKindCF(a *AggregationProcess, r1 entities.Record, r2 entities.Record) bool = forall k in [0, len(a.correlateFields)): forall i in [0, len(recList(r1))): forall j in [0, len(recList(r2))):
+//@     isFirst(r1, a.correlateFields[k], i) && isFirst(r2, a.correlateFields[k], j) ==> dt(recList(r1)[i]) == dt(recList(r2)[j])
+//@ pure presentCF(a *AggregationProcess, r1 entities.Record, r2 entities.Record) bool = forall k in [0, len(a.correlateFields)): hasName(r1, a.correlateFields[k]) ==> hasName(r2, a.correlateFields[k])
+//@ // corrOK: what correlateRecords needs of an incoming record and the record held for its flow
+//@ pure corrOK(a *AggregationProcess, rin entities.Record, rh entities.Record) bool = distinctElems(rh) && disjointElems(rin, rh) && sameKindCF(a, rin, rh) && presentCF(a, rin, rh)
 
 //@ func (a *AggregationProcess) correlateRecords(incomingRecord, existingRecord) (err)
 //@   requires a:   a != nil
-//@   requires rec: recNN(incomingRecord) && recNN(existingRecord) && distinctElems(existingRecord) && disjointElems(incomingRecord, existingRecord) && sameRegistry(incomingRecord, existingRecord)
-//@   requires present: forall k in [0, len(a.correlateFields)): hasName(incomingRecord, a.correlateFields[k]) ==> hasName(existingRecord, a.correlateFields[k])
+//@   requires rec: recNN(incomingRecord) && recNN(existingRecord) && corrOK(a, incomingRecord, existingRecord)
 //@   ensures  err: err == nil
 //@   // C07: the merged record carries every non-empty correlated field (string, unsigned8/16, signed32) of the incoming side
 //@   ensures  str: forall k in [0, len(a.correlateFields)): forall j in [0, len(recList(incomingRecord))): forall l in [0, len(recList(existingRecord))):
@@ -204,13 +221,13 @@ package intermediate
 //@                 && isFirst(existingRecord, a.correlateFields[k], l) ==> recList(existingRecord)[l].(*Signed32InfoElement).value == recList(incomingRecord)[j].(*Signed32InfoElement).value
 //@   // every string value of the existing side is either kept or replaced by the non-empty value of the incoming element with the same information element
 //@   ensures  keptstr: forall l in [0, len(recList(existingRecord))): dt(recList(existingRecord)[l]) == String ==> strval(recList(existingRecord)[l]) == old(strval(recList(existingRecord)[l]))
-//@                 || (exists j in [0, len(recList(incomingRecord))): ie(recList(incomingRecord)[j]) == ie(recList(existingRecord)[l]) && strval(recList(incomingRecord)[j]) != "" && strval(recList(existingRecord)[l]) == strval(recList(incomingRecord)[j]))
+//@                 || (exists j in [0, len(recList(incomingRecord))): ie(recList(incomingRecord)[j]).Name == ie(recList(existingRecord)[l]).Name && strval(recList(incomingRecord)[j]) != "" && strval(recList(existingRecord)[l]) == strval(recList(incomingRecord)[j]))
 //@   modifies recList(existingRecord)[*].(*StringInfoElement).value, recList(existingRecord)[*].(*Unsigned8InfoElement).value,
 //@            recList(existingRecord)[*].(*Unsigned16InfoElement).value, recList(existingRecord)[*].(*Signed32InfoElement).value,
 //@            recList(existingRecord)[*].(*IPAddressInfoElement).value
 //@   loop 1 invariant cnt: 0 <= $i && $i <= len(a.correlateFields)
 //@   loop 1 invariant keptstr: forall l in [0, len(recList(existingRecord))): dt(recList(existingRecord)[l]) == String ==> strval(recList(existingRecord)[l]) == old(strval(recList(existingRecord)[l]))
-//@                 || (exists j in [0, len(recList(incomingRecord))): ie(recList(incomingRecord)[j]) == ie(recList(existingRecord)[l]) && strval(recList(incomingRecord)[j]) != "" && strval(recList(existingRecord)[l]) == strval(recList(incomingRecord)[j]))
+//@                 || (exists j in [0, len(recList(incomingRecord))): ie(recList(incomingRecord)[j]).Name == ie(recList(existingRecord)[l]).Name && strval(recList(incomingRecord)[j]) != "" && strval(recList(existingRecord)[l]) == strval(recList(incomingRecord)[j]))
 //@   loop 1 invariant str: forall k in [0, $i): forall j in [0, len(recList(incomingRecord))): forall l in [0, len(recList(existingRecord))):
 //@                 isFirst(incomingRecord, a.correlateFields[k], j) && dt(recList(incomingRecord)[j]) == String && strval(recList(incomingRecord)[j]) != ""
 //@                 && isFirst(existingRecord, a.correlateFields[k], l) ==> strval(recList(existingRecord)[l]) == strval(recList(incomingRecord)[j])
@@ -235,6 +252,10 @@ package intermediate
 //@   requires rec: recNN(record)
 //@   ensures  rec: recNN(record) && (old(flowKinds(record)) ==> flowKinds(record)) && record.(*dataRecord) == old(record.(*dataRecord))
 //@   ensures  arr: arr(recList(record)) == old(arr(recList(record))) || fresh(recList(record))
+//@   // fields are only appended: the record's elements so far stay in place, the new ones are freshly allocated objects
+//@   ensures  grow: len(recList(record)) >= old(len(recList(record))) && (forall j in [0, old(len(recList(record)))): recList(record)[j] == old(recList(record)[j]))
+//@                  && (forall j in [old(len(recList(record))), len(recList(record))): fresh(recList(record)[j].(*baseInfoElement)))
+//@   ensures  keepdistinct: old(distinctElems(record)) ==> distinctElems(record)
 //@   modifies record.(*dataRecord).len, record.(*dataRecord).fieldCount, record.(*dataRecord).orderedElementList, recList(record)[*]
 //@   trusted
 
@@ -242,6 +263,10 @@ package intermediate
 //@   requires rec: recNN(record)
 //@   ensures  rec: recNN(record) && (old(flowKinds(record)) ==> flowKinds(record)) && record.(*dataRecord) == old(record.(*dataRecord))
 //@   ensures  arr: arr(recList(record)) == old(arr(recList(record))) || fresh(recList(record))
+//@   // fields are only appended: the record's elements so far stay in place, the new ones are freshly allocated objects
+//@   ensures  grow: len(recList(record)) >= old(len(recList(record))) && (forall j in [0, old(len(recList(record)))): recList(record)[j] == old(recList(record)[j]))
+//@                  && (forall j in [old(len(recList(record))), len(recList(record))): fresh(recList(record)[j].(*baseInfoElement)))
+//@   ensures  keepdistinct: old(distinctElems(record)) ==> distinctElems(record)
 //@   modifies record.(*dataRecord).len, record.(*dataRecord).fieldCount, record.(*dataRecord).orderedElementList, recList(record)[*]
 //@   trusted
 
@@ -256,6 +281,7 @@ package intermediate
 //@   requires recs: forall k: has(a.flowKeyRecordMap, k) ==> recNN(a.flowKeyRecordMap[k].Record) && flowKinds(a.flowKeyRecordMap[k].Record)
 //@   requires newkey: forall i in [0, len(a.expirePriorityQueue)): a.expirePriorityQueue[i].flowKey != flowKey || has(a.flowKeyRecordMap, mapkey(*flowKey))
 //@   requires newrec: forall k: has(a.flowKeyRecordMap, k) ==> distinctRec(a.flowKeyRecordMap[k].Record, record)
+//@   requires corr: has(a.flowKeyRecordMap, mapkey(*flowKey)) ==> corrOK(a, record, a.flowKeyRecordMap[mapkey(*flowKey)].Record)
 //@   let key = mapkey(*flowKey)
 //@   ensures  inv:  aggInv(a)
 //@   ensures  retry: aggRetry(a)
@@ -275,6 +301,10 @@ package intermediate
 //@   ensures  recs: forall k: has(a.flowKeyRecordMap, k) ==> recNN(a.flowKeyRecordMap[k].Record) && flowKinds(a.flowKeyRecordMap[k].Record)
 //@   ensures  which: forall k: has(a.flowKeyRecordMap, k) ==> (old(has(a.flowKeyRecordMap, k)) && a.flowKeyRecordMap[k].Record == old(a.flowKeyRecordMap[k].Record)) || a.flowKeyRecordMap[k].Record == record
 //@   ensures  arrs: record.(*dataRecord) == old(record.(*dataRecord)) && (arr(recList(record)) == old(arr(recList(record))) || fresh(recList(record)))
+//@   ensures  grow: len(recList(record)) >= old(len(recList(record))) && (forall j in [0, old(len(recList(record)))): recList(record)[j] == old(recList(record)[j]))
+//@                  && (forall j in [old(len(recList(record))), len(recList(record))): fresh(recList(record)[j].(*baseInfoElement)))
+//@   ensures  keepdistinct: old(distinctElems(record)) ==> distinctElems(record)
+//@   ensures  heldlists: forall k: old(has(a.flowKeyRecordMap, k)) ==> recList(old(a.flowKeyRecordMap[k].Record)) == old(recList(a.flowKeyRecordMap[k].Record))
 //@   modifies a.mutex.held, $lastNow, a.flowKeyRecordMap[*], a.expirePriorityQueue, a.expirePriorityQueue[*], a.expirePriorityQueue[*].(*ItemToExpire).index,
 //@            a.flowKeyRecordMap[key].ReadyToSend, a.flowKeyRecordMap[key].areCorrelatedFieldsFilled,
 //@            itemOf(a, key).flowKey, itemOf(a, key).flowRecord, itemOf(a, key).activeExpireTime, itemOf(a, key).inactiveExpireTime,
@@ -359,6 +389,10 @@ package intermediate
 //@   // the records of an incoming message are new objects: none is held already, and they are pairwise distinct
 //@   requires newrecs: forall i in [0, len(msgRecs(message))): forall k: has(a.flowKeyRecordMap, k) ==> distinctRec(a.flowKeyRecordMap[k].Record, msgRecs(message)[i])
 //@   requires pairwise: forall i in [0, len(msgRecs(message))): forall j in [0, len(msgRecs(message))): i != j ==> distinctRec(msgRecs(message)[i], msgRecs(message)[j])
+//@   // what correlation needs: element objects are not shared (within a record, between records), and the correlate fields have the same type and presence across records
+//@   requires distinct: (forall k: has(a.flowKeyRecordMap, k) ==> distinctElems(a.flowKeyRecordMap[k].Record)) && (forall i in [0, len(msgRecs(message))): distinctElems(msgRecs(message)[i]))
+//@   requires corrheld: forall i in [0, len(msgRecs(message))): forall k: has(a.flowKeyRecordMap, k) ==> corrOK(a, msgRecs(message)[i], a.flowKeyRecordMap[k].Record)
+//@   requires corrmsg: forall i in [0, len(msgRecs(message))): forall j in [0, len(msgRecs(message))): i != j ==> corrOK(a, msgRecs(message)[i], msgRecs(message)[j])
 //@   ensures  inv:  aggInv(a) && aggRetry(a)
 //@   ensures  recs: forall k: has(a.flowKeyRecordMap, k) ==> recNN(a.flowKeyRecordMap[k].Record) && flowKinds(a.flowKeyRecordMap[k].Record)
 //@   ensures  lock: !a.mutex.held && !a.mutex.rheld
@@ -369,3 +403,10 @@ package intermediate
 //@   loop 1 invariant msg:  forall i in [$i, len(msgRecs(message))): recNN(msgRecs(message)[i]) && flowKinds(msgRecs(message)[i])
 //@   loop 1 invariant newrecs: forall i in [$i, len(msgRecs(message))): forall k: has(a.flowKeyRecordMap, k) ==> distinctRec(a.flowKeyRecordMap[k].Record, msgRecs(message)[i])
 //@   loop 1 invariant pairwise: forall i in [0, len(msgRecs(message))): forall j in [0, len(msgRecs(message))): i != j ==> distinctRec(msgRecs(message)[i], msgRecs(message)[j])
+//@   loop 1 invariant ch1: forall k: has(a.flowKeyRecordMap, k) ==> distinctElems(a.flowKeyRecordMap[k].Record)
+//@   loop 1 invariant ch0: forall i in [$i, len(msgRecs(message))): distinctElems(msgRecs(message)[i])
+//@   loop 1 invariant ch2: forall i in [$i, len(msgRecs(message))): forall k: has(a.flowKeyRecordMap, k) ==> disjointElems(msgRecs(message)[i], a.flowKeyRecordMap[k].Record)
+//@   loop 1 invariant ch3: forall i in [$i, len(msgRecs(message))): forall k: has(a.flowKeyRecordMap, k) ==> sameKindCF(a, msgRecs(message)[i], a.flowKeyRecordMap[k].Record)
+//@   loop 1 invariant ch4: forall i in [$i, len(msgRecs(message))): forall k: has(a.flowKeyRecordMap, k) ==> presentCF(a, msgRecs(message)[i], a.flowKeyRecordMap[k].Record)
+//@   loop 1 invariant corrmsg: forall i in [$i, len(msgRecs(message))): forall j in [$i, len(msgRecs(message))): i != j ==> corrOK(a, msgRecs(message)[i], msgRecs(message)[j])
+//@   loop 1 invariant cf: a.correlateFields == old(a.correlateFields)
